@@ -311,7 +311,7 @@ def gen_spec(rng, **knobs) -> dict:
             ant = gen_ast(rng, ant_vars, rng.randint(0, k["depth"]), k["max_hedges"])
             ncon = 1 if rng.random() < 0.7 else min(2, n_out + 1)
             con = [gen_prop(rng, C(rng, outputs), 1 if rng.random() < 0.3 else 0, False) for _ in range(ncon)]
-            rules.append({"ant": ant, "con": con, "weight": None if rng.random() < 0.7 else fenc(C(rng, [0.5, 0.25, 0.75, 0.1, 1.5, 0.0, 1.0])),
+            rules.append({"ant": ant, "con": con, "weight": None if rng.random() < 0.7 else fenc(C(rng, [0.5, 0.25, 0.75, 0.1, 1.5, 0.0, 1.0, 0.3456, 0.12345678, 0.9995, 1.0004])),  # incl. more digits than `decimals` and values within atol of 1
                           "enabled": rng.random() >= k["disabled"]})
         blk = {"name": f"b{b}", "enabled": rng.random() >= k["disabled"] / 2, "conjunction": C(rng, tn),
                "disjunction": C(rng, sn), "implication": C(rng, tn), "activation": act, "rules": rules}
